@@ -370,6 +370,204 @@ fn gen_counting(g: &mut Gen) {
     }
 }
 
+// ---------------------------------------------------------------------------------------------
+// element types whose equality is coarser than identity: value + derivative part
+// ---------------------------------------------------------------------------------------------
+
+/// A user-defined dual number `v + d·ε` over an exact field: arithmetic by the product / quotient
+/// rules, `sqrt` by `d / (2 sqrt v)`, and — like `Trace` and `Record` — `PartialEq` / `PartialOrd`
+/// on the value only.
+macro_rules! dual_type {
+    ($D:ident, $B:ty) => {
+        #[derive(Clone, Debug)]
+        pub struct $D {
+            pub v: $B,
+            pub d: $B,
+        }
+        impl PartialEq for $D {
+            fn eq(&self, o: &$D) -> bool { self.v == o.v }
+        }
+        impl PartialOrd for $D {
+            fn partial_cmp(&self, o: &$D) -> Option<std::cmp::Ordering> { self.v.partial_cmp(&o.v) }
+        }
+        impl easy_ml::numeric::ZeroOne for $D {
+            fn zero() -> $D { $D { v: <$B as easy_ml::numeric::ZeroOne>::zero(), d: <$B as easy_ml::numeric::ZeroOne>::zero() } }
+            fn one() -> $D { $D { v: <$B as easy_ml::numeric::ZeroOne>::one(), d: <$B as easy_ml::numeric::ZeroOne>::zero() } }
+        }
+        impl easy_ml::numeric::FromUsize for $D {
+            fn from_usize(n: usize) -> Option<$D> {
+                Some($D { v: <$B as easy_ml::numeric::FromUsize>::from_usize(n)?, d: <$B as easy_ml::numeric::ZeroOne>::zero() })
+            }
+        }
+        impl std::iter::Sum for $D {
+            fn sum<I: Iterator<Item = $D>>(i: I) -> $D {
+                i.fold(<$D as easy_ml::numeric::ZeroOne>::zero(), |a, b| a + b)
+            }
+        }
+        impl $D {
+            fn add_(a: &$D, b: &$D) -> $D { $D { v: &a.v + &b.v, d: &a.d + &b.d } }
+            fn sub_(a: &$D, b: &$D) -> $D { $D { v: &a.v - &b.v, d: &a.d - &b.d } }
+            fn mul_(a: &$D, b: &$D) -> $D { $D { v: &a.v * &b.v, d: &a.d * &b.v + &a.v * &b.d } }
+            fn div_(a: &$D, b: &$D) -> $D {
+                $D { v: &a.v / &b.v, d: (&a.d * &b.v - &a.v * &b.d) / (&b.v * &b.v) }
+            }
+            fn sqrt_(a: &$D) -> $D {
+                let r = a.v.clone().sqrt();
+                let two = <$B as easy_ml::numeric::ZeroOne>::one() + <$B as easy_ml::numeric::ZeroOne>::one();
+                $D { v: r.clone(), d: &a.d / (two * r) }
+            }
+        }
+        dual_ops!($D, Add, add, add_);
+        dual_ops!($D, Sub, sub, sub_);
+        dual_ops!($D, Mul, mul, mul_);
+        dual_ops!($D, Div, div, div_);
+        impl std::ops::Neg for $D {
+            type Output = $D;
+            fn neg(self) -> $D { $D { v: -self.v, d: -self.d } }
+        }
+        impl<'a> std::ops::Neg for &'a $D {
+            type Output = $D;
+            fn neg(self) -> $D { $D { v: -&self.v, d: -&self.d } }
+        }
+        impl Sqrt for $D {
+            type Output = $D;
+            fn sqrt(self) -> $D { $D::sqrt_(&self) }
+        }
+        impl<'a> Sqrt for &'a $D {
+            type Output = $D;
+            fn sqrt(self) -> $D { $D::sqrt_(self) }
+        }
+    };
+}
+macro_rules! dual_ops {
+    ($D:ident, $Trait:ident, $method:ident, $f:ident) => {
+        impl std::ops::$Trait<$D> for $D {
+            type Output = $D;
+            fn $method(self, r: $D) -> $D { $D::$f(&self, &r) }
+        }
+        impl<'a> std::ops::$Trait<&'a $D> for $D {
+            type Output = $D;
+            fn $method(self, r: &$D) -> $D { $D::$f(&self, r) }
+        }
+        impl<'a> std::ops::$Trait<$D> for &'a $D {
+            type Output = $D;
+            fn $method(self, r: $D) -> $D { $D::$f(self, &r) }
+        }
+        impl<'a, 'b> std::ops::$Trait<&'b $D> for &'a $D {
+            type Output = $D;
+            fn $method(self, r: &$D) -> $D { $D::$f(self, r) }
+        }
+    };
+}
+dual_type!(DualFp, Fp);
+dual_type!(DualRat, Rat);
+
+/// parse `v~d` with the base type's parser
+fn split_dual(s: &str) -> Option<(&str, &str)> {
+    match s.split_once('~') {
+        Some((v, d)) => Some((v, d)),
+        None => Some((s, "0")),
+    }
+}
+
+/// The routines of linear_algebra.rs (and the matrix / tensor products) at an element type given by
+/// its parser and printer — so that `Record<'a, Fp>`, which is not `'static`, fits as well.
+fn run_coarse<E>(routine: &str, args: &[&str], parse: &dyn Fn(&str) -> Option<E>, show: &dyn Fn(&E) -> String) -> Option<String>
+where
+    E: Numeric + Sqrt<Output = E>,
+    for<'x> &'x E: NumericRef<E>,
+{
+    let list_of = |s: &str| -> Option<Vec<E>> { split_comma(s).iter().map(|t| parse(t)).collect() };
+    let mat = |i: usize| -> Option<Matrix<E>> {
+        let (dims, vals) = args.get(i)?.split_once(':')?;
+        let (r, c) = dims.split_once('x')?;
+        let (r, c) = (r.parse::<usize>().ok()?, c.parse::<usize>().ok()?);
+        let v = list_of(vals)?;
+        if v.len() == r * c { Some(Matrix::from_flat_row_major((r, c), v)) } else { None }
+    };
+    let show_m = |m: &Matrix<E>| {
+        let v: Vec<String> = m.row_major_iter().map(|x| show(&x)).collect();
+        format!("{}x{}:{}", m.rows(), m.columns(), if v.is_empty() { "-".to_string() } else { v.join(",") })
+    };
+    let opt_m = |o: Option<Matrix<E>>| match o {
+        Some(m) => format!("some({})", show_m(&m)),
+        None => "none".to_string(),
+    };
+    Some(match routine {
+        "matrix_mul" => show_m(&(&mat(0)? * &mat(1)?)),
+        "matrix_add" => show_m(&(&mat(0)? + &mat(1)?)),
+        "matrix_sub" => show_m(&(&mat(0)? - &mat(1)?)),
+        "tensor_scalar_product" => {
+            let (a, b) = (list_of(args.first()?)?, list_of(args.get(1)?)?);
+            let a: Tensor<E, 1> = Tensor::from([("i", a.len())], a);
+            let b: Tensor<E, 1> = Tensor::from([("i", b.len())], b);
+            show(&a.scalar_product(&b))
+        }
+        "determinant" => match linear_algebra::determinant::<E>(&mat(0)?) {
+            Some(d) => format!("some({})", show(&d)),
+            None => "none".into(),
+        },
+        "inverse" => opt_m(linear_algebra::inverse::<E>(&mat(0)?)),
+        "cholesky_decomposition" => opt_m(linear_algebra::cholesky_decomposition::<E>(&mat(0)?)),
+        "ldlt_decomposition" => match linear_algebra::ldlt_decomposition::<E>(&mat(0)?) {
+            Some(d) => format!("some(l={} d={})", show_m(&d.l), show_m(&d.d)),
+            None => "none".into(),
+        },
+        "covariance_column_features" => show_m(&linear_algebra::covariance_column_features::<E>(&mat(0)?)),
+        "covariance_row_features" => show_m(&linear_algebra::covariance_row_features::<E>(&mat(0)?)),
+        "mean" => show(&linear_algebra::mean(list_of(args.first()?)?.into_iter())),
+        "variance" => show(&linear_algebra::variance(list_of(args.first()?)?.into_iter())),
+        "f1_score" => show(&linear_algebra::f1_score(parse(args.first()?)?, parse(args.get(1)?)?)),
+        _ => return None,
+    })
+}
+
+fn run_dual(routine: &str, ty: &str, args: &[&str]) -> Option<String> {
+    match ty {
+        "DualFp" => run_coarse::<DualFp>(
+            routine,
+            args,
+            &|s| split_dual(s).and_then(|(v, d)| Some(DualFp { v: <Fp as UElem>::parse(v)?, d: <Fp as UElem>::parse(d)? })),
+            &|x| format!("{}~{}", x.v, x.d),
+        ),
+        "DualRat" => run_coarse::<DualRat>(
+            routine,
+            args,
+            &|s| split_dual(s).and_then(|(v, d)| Some(DualRat { v: <Rat as UElem>::parse(v)?, d: <Rat as UElem>::parse(d)? })),
+            &|x| format!("{}~{}", x.v, x.d),
+        ),
+        "TraceFp" => run_coarse::<Trace<Fp>>(
+            routine,
+            args,
+            &|s| split_dual(s).and_then(|(v, d)| Some(Trace { number: <Fp as UElem>::parse(v)?, derivative: <Fp as UElem>::parse(d)? })),
+            &|x| format!("{}~{}", x.number, x.derivative),
+        ),
+        "RecordFp" => {
+            // reverse mode: every input is a variable; the derivative part of an output is the
+            // directional derivative along the inputs' given parts, sum_k seed_k * d(out)/d(input_k)
+            let list = WengertList::new();
+            let inputs: std::cell::RefCell<Vec<(Record<Fp>, Fp)>> = std::cell::RefCell::new(vec![]);
+            let parse = |s: &str| -> Option<Record<Fp>> {
+                let (v, d) = split_dual(s)?;
+                let r = Record::variable(<Fp as UElem>::parse(v)?, &list);
+                inputs.borrow_mut().push((r.clone(), <Fp as UElem>::parse(d)?));
+                Some(r)
+            };
+            let show = |x: &Record<Fp>| -> String {
+                let mut acc = Fp(0);
+                if let Some(derivatives) = x.try_derivatives() {
+                    for (input, seed) in inputs.borrow().iter() {
+                        acc = acc + seed * &derivatives[input];
+                    }
+                }
+                format!("{}~{}", x.number, acc)
+            };
+            run_coarse::<Record<Fp>>(routine, args, &parse, &show)
+        }
+        _ => None,
+    }
+}
+
 pub fn run(toks: &[&str]) -> String {
     if toks.len() < 2 {
         return "bad-op".into();
@@ -378,6 +576,7 @@ pub fn run(toks: &[&str]) -> String {
     let r = catch(|| match ty {
         "Fp" => run_numeric::<Fp>(routine, args).or_else(|| run_real::<Fp>(routine, args)),
         "Rat" => run_numeric::<Rat>(routine, args),
+        "DualFp" | "DualRat" | "TraceFp" | "RecordFp" => run_dual(routine, ty, args),
         _ => None,
     });
     match r {
@@ -465,7 +664,128 @@ fn spd_mat(g: &mut Gen, ty: &str, n: usize, breakit: bool) -> String {
     format!("{}x{}:{}", n, n, flat.join(","))
 }
 
+/// one `value~derivative` element: zero values with non-zero derivative parts and repeated values
+/// with different parts are frequent on purpose
+fn dual_elem(g: &mut Gen, base: &str) -> String {
+    let v = if base == "Fp" {
+        if g.rng.chance(1, 2) { g.rng.below(3).to_string() } else { (g.rng.next() % P).to_string() }
+    } else {
+        (g.rng.below(7) as i64 - 3).to_string()
+    };
+    let d = if base == "Fp" {
+        (1 + g.rng.next() % (P - 1)).to_string()
+    } else {
+        let n = g.rng.below(9) as i64 - 4;
+        if n == 0 { "1".to_string() } else { n.to_string() }
+    };
+    format!("{}~{}", v, d)
+}
+
+fn dual_mat(g: &mut Gen, base: &str, r: usize, c: usize) -> String {
+    let v: Vec<String> = (0..r * c).map(|_| dual_elem(g, base)).collect();
+    format!("{}x{}:{}", r, c, v.join(","))
+}
+
+/// symmetric matrix with zero-valued off-diagonal entries carrying non-zero derivative parts;
+/// over `Rat` it is `L0 L0ᵀ` for a lower triangular `L0` with zeros below the diagonal and rational
+/// diagonal entries (exact square roots), e.g. the reviewer's `[[2,0,0],[0,3,0],[1,2,1]]`
+fn dual_spd(g: &mut Gen, base: &str, n: usize, first: bool) -> String {
+    let mut vals = vec![vec![Rat::int(0); n]; n];
+    if base == "Rat" {
+        let mut l = vec![vec![Rat::int(0); n]; n];
+        for i in 0..n {
+            for j in 0..=i {
+                l[i][j] = if i == j {
+                    Rat::int(g.rng.range(1, 3) as i64)
+                } else if g.rng.chance(1, 2) {
+                    Rat::int(0)
+                } else {
+                    Rat::int(g.rng.below(5) as i64 - 2)
+                };
+            }
+        }
+        if first && n == 3 {
+            l = vec![
+                vec![Rat::int(2), Rat::int(0), Rat::int(0)],
+                vec![Rat::int(0), Rat::int(3), Rat::int(0)],
+                vec![Rat::int(1), Rat::int(2), Rat::int(1)],
+            ];
+        }
+        for i in 0..n {
+            for j in 0..n {
+                let mut s = Rat::int(0);
+                for k in 0..n {
+                    s = s + &l[i][k] * &l[j][k];
+                }
+                vals[i][j] = s;
+            }
+        }
+        let flat: Vec<String> = (0..n * n)
+            .map(|k| {
+                let (i, j) = (k / n, k % n);
+                let d = if first && n == 3 { if (i, j) == (1, 0) { 1 } else { 0 } } else { g.rng.below(5) as i64 - 2 };
+                format!("{}~{}", vals[i][j], d)
+            })
+            .collect();
+        return format!("{}x{}:{}", n, n, flat.join(","));
+    }
+    let mut a = vec![vec![String::new(); n]; n];
+    for i in 0..n {
+        for j in 0..=i {
+            let v = if i == j { g.rng.range(1, 50).to_string() } else if g.rng.chance(1, 2) { "0".to_string() } else { g.rng.below(4).to_string() };
+            let d = (1 + g.rng.next() % (P - 1)).to_string();
+            a[i][j] = format!("{}~{}", v, d);
+            a[j][i] = a[i][j].clone();
+        }
+    }
+    let flat: Vec<String> = a.iter().flatten().cloned().collect();
+    format!("{}x{}:{}", n, n, flat.join(","))
+}
+
+/// every generic routine of linear_algebra.rs and the products at element types that compare by
+/// value only: a user-defined dual number over Fp and over Rat, Trace<Fp>, Record<Fp>
+fn gen_coarse(g: &mut Gen) {
+    let reps = if g.thorough { 30 } else { 5 };
+    for ty in ["DualFp", "DualRat", "TraceFp", "RecordFp"] {
+        let base = if ty == "DualRat" { "Rat" } else { "Fp" };
+        let mut emit = |g: &mut Gen, routine: &str, args: String| {
+            g.op(format!("@ user {} {} {}", routine, ty, args));
+            g.count(&format!("coarse.{}.{}", routine, ty));
+        };
+        for rep in 0..reps {
+            let (r, k, c) = (g.rng.range(1, 3), g.rng.range(1, 3), g.rng.range(1, 3));
+            let args = format!("{} {}", dual_mat(g, base, r, k), dual_mat(g, base, k, c));
+            emit(g, "matrix_mul", args);
+            let args = format!("{} {}", dual_mat(g, base, r, c), dual_mat(g, base, r, c));
+            emit(g, if rep % 2 == 0 { "matrix_add" } else { "matrix_sub" }, args);
+            let n = g.rng.range(1, 4);
+            let args = format!("{} {}", dual_mat(g, base, 1, n).split_once(':').unwrap().1, dual_mat(g, base, 1, n).split_once(':').unwrap().1);
+            emit(g, "tensor_scalar_product", args);
+            let n = g.rng.range(1, 3);
+            let a = dual_mat(g, base, n, n);
+            emit(g, "determinant", a.clone());
+            emit(g, "inverse", a);
+            let n = g.rng.range(2, 3);
+            let a = dual_spd(g, base, if rep == 0 { 3 } else { n }, rep == 0);
+            emit(g, "cholesky_decomposition", a.clone());
+            emit(g, "ldlt_decomposition", a);
+            let (r, c) = (g.rng.range(1, 3), g.rng.range(1, 3));
+            let a = dual_mat(g, base, r, c);
+            emit(g, "covariance_column_features", a.clone());
+            emit(g, "covariance_row_features", a);
+            let n = g.rng.range(1, 4);
+            let l = dual_mat(g, base, 1, n);
+            let l = l.split_once(':').unwrap().1.to_string();
+            emit(g, "mean", l.clone());
+            emit(g, "variance", l);
+            let args = format!("{} {}", dual_elem(g, base), dual_elem(g, base));
+            emit(g, "f1_score", args);
+        }
+    }
+}
+
 pub fn gen(g: &mut Gen) {
+    gen_coarse(g);
     gen_counting(g);
     let reps = if g.thorough { 40 } else { 6 };
     for ty in ["Fp", "Rat"] {
